@@ -89,7 +89,10 @@ def kernel(x, p):
             before_nl = i + 1 < len(run) and isinstance(
                 run[i + 1], lexer.TokNewline)
             after_nl = i > 0 and isinstance(run[i - 1], lexer.TokNewline)
-            if before_nl or after_nl:
+            # (blanks that end the last line of the file are trailing
+            # blanks of a line, too)
+            last = at_eof and i == len(run) - 1
+            if before_nl or after_nl or last:
                 continue
         stripped.append(t)
     glued = False
